@@ -33,6 +33,19 @@ ASSUMPTIONS = [
     "ControlStream reads are next()/take()/reads through .map(); peek()/copy() buffer values by design and are outside the property",
 ]
 
+MANIFEST = {
+    "text": "Lean 4 theorems, for every history of add/next/keep operations with arbitrary rational deltas: "
+            "generator-level model of Streamix (iterator identities, two-pass removal, count at resumption) = fused "
+            "state machine = log-and-closed-formula specification (start max(ceil(T_i - 1/2), moment added), "
+            "out n = zero + sum of the items due); count invariant, no drift, termination at max(start_i+len_i), "
+            "keep, rejection of negative deltas, no revival, ControlStream last-assigned value.  Tied to /repo by "
+            "stepping the real objects through the same histories (outputs, StopIteration, container sizes, the "
+            "generator frame's count) in the exact (dyadic) regime",
+    "note": "Trusted: Lean kernel, axioms propext/Classical.choice/Quot.sound, the Python harness; models are hand "
+            "written (event data = finite lists, generator protocol not modelled below the level of one next()); "
+            "floating-point rounding of non-dyadic deltas is outside the theorems",
+}
+
 # ----------------------------------------------------------------------------------------------
 # value transport: JSON int | "p/q" plus a kind saying which Python type the impl gets
 # ----------------------------------------------------------------------------------------------
